@@ -85,6 +85,9 @@ def main():
     base_raw = run_props(allprops)
     base = {p: {key(o) for o in obs} for p, obs in base_raw.items()}
     subprocess.run([os.path.join(VERIF, "run.sh"), "build"], check=True)
+    if not os.path.exists(MUTGEN):
+        env = dict(os.environ, PATH="/opt/veriftools/go1.26.8/bin:" + os.environ.get("PATH", ""), GOTOOLCHAIN="local", GOFLAGS="-mod=mod", GOPROXY="off", GOSUMDB="off", GOWORK="off")
+        subprocess.run(["go", "build", "-o", MUTGEN, "./cmd/mutgen"], cwd=os.path.join(VERIF, "checker"), env=env, check=True)
     muts = []
     if a.prev:
         muts = [{k: m[k] for k in ("file", "func", "line", "kind", "off", "end", "old", "new")} for m in json.load(open(a.prev)) if m["status"] == ("killed" if a.benign else "survived")]
